@@ -85,6 +85,8 @@ def truncation_rules(chk, repo, rule, rows_tie_holds, thorough=False):
         elif o == "returned":
             if len(tr.records) >= n:
                 bad.append(f"file of {n} lines x {L} bytes cut to {c} bytes (of {DESCRIPTOR + n * L}), records_per_chunk={rpc}: the pass returns all {len(tr.records)} line records - bytes that are not in the file were accepted")
+            elif rows_tie_holds is None:
+                undecided.append((n, L, rpc, c, "undecided: fewer records than declared are returned and whether the `rows` dimension ties them to the declared shape (C18-E3) could not be decided"))
             elif not rows_tie_holds:
                 bad.append(f"file cut to {c} bytes: {len(tr.records)} of {n} records returned and nothing ties the number of records to the declared shape")
             else:
